@@ -15,16 +15,16 @@ import json
 import vlib
 
 LEVEL = "model_checking"
-BOUNDS = {"quick": dict(MaxN=4, runs=480), "thorough": dict(MaxN=5, runs=1600)}
+BOUNDS = {"quick": dict(MaxN=4, VecN=3, runs=500), "thorough": dict(MaxN=5, VecN=4, runs=3000)}
 
 
-def replay_cases(ctx, binary, cases, tag):
+def replay_cases(ctx, binary, cases, tag, sub="replay"):
     results = ctx.path("estim-results-%s.ndjson" % tag)
-    ctx.run([binary, "replay", cases, results], timeout=1800)
+    ctx.run([binary, sub, cases, results], timeout=1800)
     summ = None
     for r in vlib.iter_ndjson(results):
         if r["kind"] == "mismatch":
-            r["detail"]["mode"] = "closed-form"
+            r["detail"].setdefault("mode", "closed-form")
             ctx.violation(r["sig"], r["detail"])
         elif r["kind"] == "summary":
             summ = r
@@ -71,6 +71,16 @@ def run(ctx):
     binary = ctx.go_build("estim")
     summ = replay_cases(ctx, binary, cases, "main")
     ctx.traces += summ["cases"]
+    # multivariate normal (EstimatorsVec.tla)
+    vcases = ctx.path("estimvec-cases.ndjson")
+    vres = ctx.tlc("EstimatorsVec", "EstimatorsVec.cfg", workers=4, timeout=3000, json_out=vcases,
+                   consts={"MaxN": str(b["VecN"])}, label="estimators-vec")
+    if vres.json_count < 100:
+        raise vlib.Infra("too few vector estimator cases")
+    vsumm = replay_cases(ctx, binary, vcases, "vec", sub="replayvec")
+    ctx.traces += vsumm["cases"]
+    summ["cases"] += vsumm["cases"]
+    summ["estimator_runs"] += vsumm["estimator_runs"]
     with open(cases) as f:
         lines = f.readlines()
     ctx.sample({"closed_form_case": json.loads(lines[len(lines) // 2])})
@@ -104,9 +114,9 @@ def run(ctx):
         if max(iters) < 5:
             raise vlib.Infra("vacuity: no trajectory with more than 4 iterations")
     ctx.extra["bounds"] = {"closed_form": {"MaxN": b["MaxN"], "Xs": [0, 1, 2, 5], "Ws": [1, 2, 3],
-                                           "families": ["normal", "exponential", "poisson", "geometric", "categorical"],
+                                           "families": ["normal", "exponential", "poisson", "geometric", "categorical", "vector-normal (2-d, grid 3x3)"],
                                            "modes": ["weighted", "unweighted", "batch"], "bounds": "sigmaMin 1e-3 / 1.5, lambdaMax 100 / 0.5"},
-                           "em": {"trajectories": b["runs"], "scenarios": 8, "epsilon": [1e-8, 1e-4, 1e-2], "maxSteps": [-1, 1, 3, 8]}}
+                           "em": {"trajectories": b["runs"], "scenarios": 10, "epsilon": [1e-8, 1e-4, 1e-2], "maxSteps": [-1, 1, 3, 8]}}
     ctx.extra["estimator_runs"] = summ["estimator_runs"]
     ctx.assumptions += ["numeric estimators (NumericEstimator, negative binomial) and logistic regression are not covered by the closed-form contract",
                         "the recomputed likelihood uses the distributions' own LogPdf (decided by C14/C15)"]
@@ -126,6 +136,11 @@ def replay(ctx, path):
         with open(cases, "w") as f:
             f.write(json.dumps(d["case"]) + "\n")
         replay_cases(ctx, binary, cases, "replay")
+    elif d.get("mode") == "closed-form-vec":
+        cases = ctx.path("case.ndjson")
+        with open(cases, "w") as f:
+            f.write(json.dumps(d["case"]) + "\n")
+        replay_cases(ctx, binary, cases, "replay", sub="replayvec")
     else:
         only = "%s %d %d %d" % (d["scenario"], d["seed"], d["eps_index"], d["maxsteps"])
         record(ctx, binary, 1, "replay", env={"ESTIM_ONLY": only})
